@@ -126,7 +126,7 @@ package qbft
 //@ loop 1 invariant ncalls("send c.getRecvBuffer(duty)") == 0 && ncalls(c.deadliner.Add) == 0
 
 //@ func leader
-//@ props C02 C04
+//@ props C02 C04 C01
 //@ mode bv
 //@ requires duty.Slot < 1<<62 && 0 <= duty.Type && duty.Type < 64 && 1 <= round && round < 1<<61 && 1 <= nodes && nodes <= 1<<31
 //@ ensures 0 <= result && result < int64(nodes)
@@ -138,7 +138,7 @@ package qbft
 // createMsg signs a message that carries exactly the requested type, duty, sender, rounds and value hashes, and
 // attaches the protobuf form of every justification in order.
 //@ func createMsg
-//@ props C05 C02 C03
+//@ props C05 C02 C03 C01
 //@ assigns nothing
 //@ callreq signMsg: a1.Type == int64(typ) && a1.Duty == core.DutyToProto(duty) && a1.PeerIdx == peerIdx && a1.Round == round && a1.PreparedRound == pr && a2 == privkey
 //@ callreq signMsg: a1.ValueHash == vHash[:] && a1.PreparedValueHash == pvHash[:]
@@ -151,12 +151,12 @@ package qbft
 //@ pure Msg.Values subs
 
 //@ func newDefinition
-//@ props C02 C03 C04
+//@ props C02 C03 C04 C01
 //@ requires 1 <= nodes && nodes <= 4096
 //@ ensures result.Nodes == nodes && result.FIFOLimit == instance.RecvBufferSize
 
 //@ func newDefinition$1
-//@ props C02 C03 C04
+//@ props C02 C03 C04 C01
 //@ requires duty.Slot < 1<<62 && 0 <= duty.Type && duty.Type < 64 && 1 <= round && round < 1<<61 && 1 <= nodes && nodes <= 4096
 //@ ensures result == ((int64(duty.Slot) + int64(duty.Type) + round) % int64(nodes) == process)
 
@@ -175,7 +175,7 @@ package qbft
 // propose: the instance of THIS duty is marked proposed first, then receives the proposed value together with the hash
 // of that very value, and the consensus run that is started is the one of this duty.
 //@ func (c *Consensus) propose
-//@ props C02 C03
+//@ props C02 C03 C01
 // The instance of a live duty is never removed here (only the expiry loop in Start deletes instances).
 //@ ensures ncalls(c.deleteInstanceIO) == 0
 //@ requires len(c.peers) <= 4096
@@ -187,7 +187,7 @@ package qbft
 //@ ensures ncalls(c.runInstance) <= 1
 
 //@ func (c *Consensus) Participate
-//@ props C02 C03
+//@ props C02 C03 C01
 // The instance of a live duty is never removed here (only the expiry loop in Start deletes instances).
 //@ ensures ncalls(c.deleteInstanceIO) == 0
 //@ requires len(c.peers) <= 4096
@@ -199,7 +199,7 @@ package qbft
 // the cluster's node count, the instance's own input channels, and a transport bound to the node's key; expired or
 // exempt duties never start a run.
 //@ func (c *Consensus) runInstance
-//@ props C02 C03 C04
+//@ props C02 C03 C04 C01
 //@ assigns c.mutable
 // The instance of a live duty is never removed here (only the expiry loop in Start deletes instances).
 //@ ensures ncalls(c.deleteInstanceIO) == 0
@@ -215,7 +215,7 @@ package qbft
 // The process id handed to qbft.Run is this node's position in the peer list (so the list is not empty).
 //@ pure host.Host.ID
 //@ func (c *Consensus) getPeerIdx
-//@ props C02 C03 C04
+//@ props C02 C03 C04 C01
 //@ ensures r1 == nil ==> 0 <= r0 && r0 < int64(len(c.peers)) && c.peers[r0].ID == c.p2pNode.ID()
 //@ loop 1 invariant peerIdx == -1 || (0 <= peerIdx && peerIdx < int64($i) && c.peers[peerIdx].ID == c.p2pNode.ID())
 
@@ -223,7 +223,7 @@ package qbft
 //@ pure Msg.ToConsensusMsg Msg.Value Msg.PreparedValue
 
 //@ func (t *transport) Broadcast
-//@ props C02 C03 C04 C05
+//@ props C02 C03 C04 C05 C01
 //@ callreq t.getValue: a1 != [32]byte{}
 //@ callreq createMsg: a1 == typ && a2 == duty && a3 == peerIdx && a4 == round && a5 == valueHash && a6 == pr && a7 == pvHash && a9 == justification && a10 == t.privkey
 //@ callreq createMsg: a8 == values && (valueHash == [32]byte{} || has(values, valueHash)) && (pvHash == [32]byte{} || has(values, pvHash))
@@ -238,12 +238,12 @@ package qbft
 
 // self-delivery: the instance receives the very message that is broadcast
 //@ func (t *transport) Broadcast$1
-//@ props C02 C03 C04
+//@ props C02 C03 C04 C01
 //@ callreq send t.recvBuffer: a1 == msg
 
 // incoming messages are handed to the instance unchanged, after their values were recorded
 //@ func (t *transport) ProcessReceives
-//@ props C02 C03 C04 C05
+//@ props C02 C03 C04 C05 C01
 //@ callreq t.setValues: a1 == msg
 //@ callreq send t.recvBuffer: a1 == msg && ncalls(t.setValues) == ncalls("send t.recvBuffer") + 1
 //@ loop 1 invariant ncalls(t.setValues) == ncalls("send t.recvBuffer")
@@ -264,7 +264,7 @@ package qbft
 // Participated flags) staying in the map until the deadliner reports the duty: the lookups never replace or remove an
 // existing instance, only the expiry loop deletes, and it deletes exactly the expired duty's entry.
 //@ func (c *Consensus) getInstanceIO
-//@ props C02 C03
+//@ props C02 C03 C01
 //@ assigns c.mutable
 //@ atomic
 //@ ensures has(old(c.mutable.instances), duty) ==> result == old(c.mutable.instances)[duty]
@@ -272,7 +272,7 @@ package qbft
 //@ ensures all(d2, core.Duty, d2 != duty ==> has(c.mutable.instances, d2) == has(old(c.mutable.instances), d2) && c.mutable.instances[d2] == old(c.mutable.instances)[d2])
 
 //@ func (c *Consensus) getRecvBuffer
-//@ props C02 C03
+//@ props C02 C03 C01
 //@ assigns c.mutable
 //@ atomic
 //@ ensures has(old(c.mutable.instances), duty) ==> c.mutable.instances[duty] == old(c.mutable.instances)[duty]
@@ -280,14 +280,14 @@ package qbft
 //@ ensures all(d2, core.Duty, d2 != duty ==> has(c.mutable.instances, d2) == has(old(c.mutable.instances), d2) && c.mutable.instances[d2] == old(c.mutable.instances)[d2])
 
 //@ func (c *Consensus) deleteInstanceIO
-//@ props C02 C03
+//@ props C02 C03 C01
 //@ assigns c.mutable
 //@ atomic
 //@ ensures !has(c.mutable.instances, duty)
 //@ ensures all(d2, core.Duty, d2 != duty ==> has(c.mutable.instances, d2) == has(old(c.mutable.instances), d2) && c.mutable.instances[d2] == old(c.mutable.instances)[d2])
 
 //@ func (c *Consensus) Start$2
-//@ props C02 C03
+//@ props C02 C03 C01
 //@ callreq c.deleteInstanceIO: a1 == duty
 //@ ensures ncalls(c.getInstanceIO) == 0
 //@ loop 1 invariant ncalls(c.getInstanceIO) == 0
